@@ -30,6 +30,7 @@ private theorem coerceVariable_sound {reg : Reg} (hreg : RegOK reg) {fuel : Nat}
       · cases h
       · split at h
         · cases h
+        · cases h
         · rename_i pv' hpv
           cases h
           exact variable_sound hreg fuel d.type _ _ hwf hpv
